@@ -765,6 +765,51 @@ theorem matrix_history_independent {A1 A2 A : Mat} {a1 a2 : List Hist.MOp} {o1 o
 -- v = (3,4): Norm, v -= (3,0), Norm reports 25 then 16 (squares): the second value is that of the current entries
 example : Hist.vRun [3, 4] [.norm, .subA [3, 0], .norm] = .ok [25, 16] := by decide +kernel
 
+
+/-! ## Chained compound assignment -/
+
+/-- a chain `(x ⊕ b) ⊕' c …` is the sequential application of the binary operators: its first
+    step is `x + b` / `x - b` and the rest of the chain continues from that value (every shape `m,n ≥ 1`) -/
+theorem mChain_cons {x : Mat} (hx : x.WellShaped) (h0 : x.rows ≠ 0) (pl : Bool) (b : Mat) (r : List (Bool × Mat)) :
+    Hist.mChain x ((pl, b) :: r) =
+      match (if pl then plus x b else minus x b) with
+      | .ok y => Hist.mChain y r
+      | .error e => .error e := by
+  cases pl
+  · simp only [Hist.mChain, Bool.false_eq_true, if_false, minusAssign_eq_minus b hx h0]
+    generalize minus x b = q; cases q <;> rfl
+  · simp only [Hist.mChain, if_true, plusAssign_eq_plus b hx h0]
+    generalize plus x b = q; cases q <;> rfl
+
+/-- `(x += b) += c` leaves `(x + b) + c` in `x` (and likewise for the other three sign patterns) -/
+theorem mChain_two {x b c y z : Mat} (hx : x.WellShaped) (h0 : x.rows ≠ 0) (h1 : plus x b = .ok y) (h2 : plus y c = .ok z) :
+    Hist.mChain x [(true, b), (true, c)] = .ok z := by
+  have hy := plus_refines h1
+  rw [mChain_cons hx h0, if_pos rfl, h1]
+  simp only
+  rw [mChain_cons hy.1 (by rw [hy.2.1]; exact h0), if_pos rfl, h2]
+  simp [Hist.mChain]
+
+theorem vChain_cons (x : Vec) (pl : Bool) (b : Vec) (r : List (Bool × Vec)) :
+    Hist.vChain x ((pl, b) :: r) =
+      match (if pl then vadd x b else vsub x b) with
+      | .ok y => Hist.vChain y r
+      | .error e => .error e := by
+  cases pl
+  · simp only [Hist.vChain, Bool.false_eq_true, if_false, vsubAssign_eq_vsub]
+    generalize vsub x b = q; cases q <;> rfl
+  · simp only [Hist.vChain, if_true, vaddAssign_eq_vadd]
+    generalize vadd x b = q; cases q <;> rfl
+
+/-- a non-conformable step anywhere in the chain stops it with the diagnostic -/
+theorem mChain_err {x b : Mat} (r : List (Bool × Mat)) (pl : Bool) (h : x.rows ≠ b.rows ∨ x.cols ≠ b.cols) :
+    Hist.mChain x ((pl, b) :: r) = .error .diag := by
+  cases pl <;> simp [Hist.mChain, plusAssign, minusAssign, h]
+
+example : Hist.mChain ⟨1, 2, [[1, 2]]⟩ [(true, ⟨1, 2, [[10, 20]]⟩), (false, ⟨1, 2, [[1, 1]]⟩)] = .ok ⟨1, 2, [[10, 21]]⟩ := by
+  decide +kernel
+example : Hist.vChain [1, 2] [(true, [10, 20]), (true, [100, 200])] = .ok [111, 222] := by decide +kernel
+
 /-! ## Non-vacuity: concrete instances of the hypotheses -/
 
 example : plus ⟨2, 3, [[1, 2, 3], [4, 5, 6]]⟩ ⟨2, 3, [[1, 1, 1], [1, 1, 1]]⟩
